@@ -271,7 +271,7 @@ def run(ctx):
 
     # ---- (a) permutations, (c) dummy creations / raised counters: whole catalogue per process ----
     histories = [{"tag": "ref", "kind": "reference (walk order, no pre-history)", "modules": modules, "hashseed": 0}]
-    n_perm, n_dummy, n_raised = ctx.pick((5, 3, 3), (12, 6, 5))
+    n_perm, n_dummy, n_raised = ctx.pick((4, 3, 2), (12, 6, 5))
     for i in range(n_perm):
         order = modules[:]
         rng.shuffle(order)
